@@ -139,13 +139,17 @@ pub fn gen(ctx: &Ctx) {
         }
     }
     // random larger tables
-    let methods = ["0", "1", "2", "3", "4", "5", "6", "7", "c50555247", "c474554", "c4c494e4b"];
+    // custom methods also in lower / mixed case: `PURGE`, `Purge` and `purge` are three different methods (seed C11-j keyed the
+    // bucket by the upper-cased token at registration only)
+    let methods = ["0", "1", "2", "3", "4", "5", "6", "7", "c50555247", "c474554", "c4c494e4b", "c5075726765", "c7075726765", "c6d2d736561726368", "c676574"];
     let words = ["a", "b", "c", "users", "api", "v1", "x", "", "é", ":id", ":name", ":p", "*", "**", "a b", ":", "***", "*a", "c#", "a?b"];
     let n = if ctx.thorough { 20000 } else { 2500 };
     for _ in 0..n {
         let nr = rng.range(1, 40) as usize;
         let nm = rng.range(1, 3) as usize;
-        let ms: Vec<&str> = (0..nm).map(|_| *rng.pick(&methods)).collect();
+        let mut ms: Vec<&str> = (0..nm).map(|_| *rng.pick(&methods)).collect();
+        // one table in eight registers under case variants of one custom method
+        if rng.chance(1, 8) { ms = vec!["c50555247", "c5075726765", "c7075726765"]; }
         let mut regs = Vec::new();
         let mut pats: Vec<String> = Vec::new();
         for _ in 0..nr {
